@@ -107,8 +107,15 @@ def run_check(pid, tier, seed):
     # 1. translator / model validation on concrete runs (Serval-style)
     validated = 0
     if hasattr(hm, 'validate'):
+        import signal
+
+        def _alarm(signum, frame):
+            raise TimeoutError('model validation did not finish within 600 s')
+        signal.signal(signal.SIGALRM, _alarm)
+        signal.alarm(600)
         try:
             validated = int(hm.validate(tier))
+            signal.alarm(0)
             log('  validation of models/translation against the real code: %d concrete runs agree' % validated)
         except AssertionError as e:
             inconclusive.append('model validation failed: %s' % (str(e)[:500],))
@@ -117,6 +124,8 @@ def run_check(pid, tier, seed):
             import traceback
             inconclusive.append('model validation error: %s' % traceback.format_exc()[-800:])
             log('  MODEL VALIDATION ERROR: %s' % traceback.format_exc()[-1500:])
+        finally:
+            signal.alarm(0)
 
     # 2. obligations
     obs = []
@@ -163,6 +172,14 @@ def run_check(pid, tier, seed):
             inconclusive.append('%s: harness error: %s' % (ob.name, agg.errors[0]))
         for w, n in agg.unmodelled.items():
             inconclusive.append('%s: %s (%d paths)' % (ob.name, w, n))
+        if not ob.allow_cut:
+            for w, n in agg.cuts.items():
+                inconclusive.append('%s: cut: %s (%d paths)' % (ob.name, w, n))
+        rep['paths_cut_by_bound'] = dict(agg.cuts)
+        if agg.stopped_early:
+            rep['stopped_early_with_pending_prefixes'] = agg.stopped_early
+            if not agg.viols:
+                inconclusive.append('%s: exploration stopped early' % ob.name)
         if agg.cut:
             inconclusive.append('%s: exploration cut by limit' % ob.name)
         concl = agg.counts.get('ok', 0) + agg.counts.get('viol', 0)
